@@ -39,6 +39,8 @@ pub struct PeerCfg {
     /// 0: receiver-centred (C04), 1: state-machine-centred (C17), 2: sender-centred (C05)
     pub focus: u8,
     pub keep_alive_ms: Option<u64>,
+    /// user timeout (`set_timeout`): the socket aborts when the peer stays silent that long
+    pub timeout_ms: Option<u64>,
 }
 
 pub fn random_cfg(rng: &mut Rng, focus: u8) -> PeerCfg {
@@ -85,6 +87,7 @@ pub fn random_cfg(rng: &mut Rng, focus: u8) -> PeerCfg {
         steps: rng.urange(20, 400),
         focus,
         keep_alive_ms: *rng.pick(&[None, None, None, Some(500u64), Some(5_000), Some(75_000)]),
+        timeout_ms: *rng.pick(&[None, None, None, None, None, Some(500u64), Some(3_000), Some(30_000)]),
     }
 }
 
@@ -144,6 +147,8 @@ pub struct PeerSim {
     closed_in_syn_received: bool,
     tw_entered: Option<Micros>,
     tw_last_touch: Micros,
+    /// when this incarnation of the socket was opened (earliest instant its user timeout can count from)
+    opened_at: Micros,
     peer_acked_max: u32,
     /// highest ACK number the peer ever put on a segment that the socket could have accepted
     /// (up to everything queued, sent or not, plus the FIN): the socket may have advanced SND.UNA to it
@@ -243,6 +248,7 @@ impl PeerSim {
             s.set_nagle_enabled(cfg.nagle);
             s.set_ack_delay(cfg.ack_delay_ms.map(Duration::from_millis));
             s.set_keep_alive(cfg.keep_alive_ms.map(Duration::from_millis));
+            s.set_timeout(cfg.timeout_ms.map(Duration::from_millis));
             s.set_congestion_control(match cfg.cc {
                 0 => tcp::CongestionControl::None,
                 1 => tcp::CongestionControl::Reno,
@@ -280,6 +286,7 @@ impl PeerSim {
             closed_in_syn_received: false,
             tw_entered: None,
             tw_last_touch: now,
+            opened_at: now,
             peer_acked_max: 0,
             peer_ack_sent_max: None,
             peer_acks_sent: Vec::new(),
@@ -819,7 +826,15 @@ impl PeerSim {
                 }
             }
         }
-        self.judge_transition(before, after, "egress", &allowed, "only TIME-WAIT expiry (10 s after entry) changes the state without a segment or API call");
+        // the user timeout (set_timeout) aborts a connection whose peer stayed silent that long:
+        // CLOSED, and nothing else, is then reachable without a segment (weakest bound: counted from
+        // the instant the socket was opened)
+        if let Some(ms) = self.cfg.timeout_ms {
+            if self.now >= self.opened_at + ms as Micros * 1000 && !matches!(before, State::Closed | State::Listen) {
+                allowed.push(State::Closed);
+            }
+        }
+        self.judge_transition(before, after, "egress", &allowed, "only TIME-WAIT expiry (10 s after entry) - or the user timeout, to CLOSED - changes the state without a segment or API call");
         // TIME-WAIT must end by itself 10 s after the last segment that could refresh it
         let mut after = after;
         if after == State::TimeWait && self.now >= self.tw_last_touch + 10_000_000 + 1 {
@@ -847,6 +862,10 @@ impl PeerSim {
     fn coop_epilogue(&mut self, rng: &mut Rng) {
         let st = self.state();
         if !matches!(st, State::Established | State::FinWait1 | State::FinWait2) || self.fin_arrived_entitled || self.aborted || self.iss.is_none() {
+            return;
+        }
+        if self.cfg.timeout_ms.is_some() {
+            // a user timeout may legitimately abort the connection in the middle of the epilogue
             return;
         }
         self.stats.coop_epilogues += 1;
